@@ -18,6 +18,7 @@ import (
 	"path/filepath"
 	"strconv"
 	"strings"
+	"time"
 
 	"golang.org/x/tools/go/ssa"
 )
@@ -33,13 +34,22 @@ type ReplayInfo struct {
 }
 
 type goBuilder struct {
-	vc      *VC
-	m       *Model
-	pkg     *types.Package
-	imports map[string]string
-	err     string
-	cand    int
-	substituted bool // an unnameable interface value was replaced by nil: a panic is then not conclusive
+	vc          *VC
+	m           *Model
+	pkg         *types.Package
+	imports     map[string]string
+	err         string
+	cand        int
+	substituted bool      // an unnameable interface value was replaced by nil: a panic is then not conclusive
+	deadline    time.Time // building the replay input from the model gives up after this (models with large arrays are slow to evaluate)
+}
+
+func (g *goBuilder) expired() bool {
+	if !g.deadline.IsZero() && time.Now().After(g.deadline) {
+		g.fail("building the replay input from the model exceeded its time budget")
+		return true
+	}
+	return false
 }
 
 func (g *goBuilder) fail(format string, a ...interface{}) string {
@@ -73,6 +83,9 @@ func (g *goBuilder) value(t types.Type, s *Sexp, depth int) string {
 	}
 	if depth > 6 {
 		return g.fail("value too deep")
+	}
+	if g.expired() {
+		return "nil"
 	}
 	switch u := t.Underlying().(type) {
 	case *types.Basic:
@@ -201,11 +214,14 @@ func (g *goBuilder) strBytes(s *Sexp) ([]byte, bool) {
 	}
 	off, ok1 := g.intLit(s.List[2])
 	ln, ok2 := g.intLit(s.List[3])
-	if !ok1 || !ok2 || !ln.IsInt64() || ln.Int64() > 1<<16 || ln.Sign() < 0 {
+	if !ok1 || !ok2 || !ln.IsInt64() || ln.Int64() > 1<<12 || ln.Sign() < 0 {
 		return nil, false
 	}
 	out := make([]byte, ln.Int64())
 	for i := int64(0); i < ln.Int64(); i++ {
+		if i%16 == 0 && g.expired() {
+			return nil, false
+		}
 		idx := new(big.Int).Add(off, big.NewInt(i))
 		e := g.m.selectArr(s.List[1], &Sexp{Atom: idx.String()}, nil)
 		v, ok := g.m.intOf(e, nil)
@@ -318,7 +334,7 @@ func replayOnce(P *Program, r *Result, cand int) (note, suffix string) {
 	}
 	m := parseModel(r.Model)
 	fn := vc.fn
-	g := &goBuilder{vc: vc, m: m, pkg: fn.Pkg.Pkg, imports: map[string]string{}, cand: cand}
+	g := &goBuilder{vc: vc, m: m, pkg: fn.Pkg.Pkg, imports: map[string]string{}, cand: cand, deadline: time.Now().Add(20 * time.Second)}
 	var args []string
 	var instNames []string
 	var instType string
